@@ -18,18 +18,18 @@ type Comp uint8
 
 // The universe. Order here is NOT the registration order in a world.
 const (
-	P   Comp = iota // plain 16 B
-	Q               // plain 4 B
-	R1              // relation marker only (zero size)
-	R2              // relation with int64 payload
-	S               // pointer bearing
-	Z               // zero size
-	L               // plain 40 B (larger than an entity)
-	T7              // 1 B
-	T8              // 2 B
-	T9              // 8 B
-	T10             // 24 B
-	T11             // 12 B
+	P        Comp = iota // plain 16 B
+	Q                    // plain 4 B
+	R1                   // relation marker only (zero size)
+	R2                   // relation with int64 payload
+	S                    // pointer bearing
+	Z                    // zero size
+	L                    // plain 40 B (larger than an entity)
+	T7                   // 1 B
+	T8                   // 2 B
+	T9                   // 8 B
+	T10                  // 24 B
+	T11                  // 12 B
 	NumComps = 12
 )
 
